@@ -103,6 +103,9 @@ def bounds(tier, seed):
 FLOORS = {'threaded_calls': 500, 'calls': 20000, 'client_errors': 5000, 'delivered_fields': 100, 'accepted': 1000}
 
 
+PRELOOK = {'forms': 'json', 'body': 'forms', 'params': 'body', 'json': 'forms'}
+
+
 def make_app(om, M):
     if M == 64:
         # configured after construction through setup() (the other applications get their configuration as a constructor argument)
@@ -115,6 +118,14 @@ def make_app(om, M):
     def h(acc):
         rq = app.request
         seen.clear()
+        pre = PRELOOK.get(acc) if M == 64 else None
+        if pre:
+            # "try one reading of the body, fall back to another": the handler of this application first looks through another
+            # accessor and ignores the HTTP error it may get; whatever the second look answers must still be a client error or a result
+            try:
+                getattr(rq, pre)
+            except om.HTTPError:
+                seen['prelook_refused'] = pre
         if acc == 'forms':
             seen['fields'] = [(k, v) for k, v in rq.forms.items()]
         elif acc == 'files':
@@ -361,5 +372,6 @@ def replay(case):
     v = judge(c, seen, case['body'], case['boundary'], case['framing'])
     if v is None:
         return None
+    pre = f' after a first look at request.{PRELOOK[case["acc"]]} whose HTTP error it ignores' if (case['M'] == 64 and case['acc'] in PRELOOK) else ''
     return (f'POST body {case["body"][:80]!r} ({len(case["body"])} bytes) Content-Type {case["ctype"]!r}, {case["framing"]}, '
-            f'max_memfile_size={case["M"]}, handler reads request.{case["acc"]}{" (served on a fresh worker thread)" if case.get("threaded") else ""}: {v[1]}')
+            f'max_memfile_size={case["M"]}, handler reads request.{case["acc"]}{pre}{" (served on a fresh worker thread)" if case.get("threaded") else ""}: {v[1]}')
